@@ -130,6 +130,7 @@ type refInfo struct {
 	OrderDisagree  int
 	FreshDisagree  int
 	ExcludedInputs int
+	Crashers       []string
 }
 
 // refViolation is a C05 violation found without any simulation: the reference
@@ -141,6 +142,7 @@ type refViolation struct {
 	A     string `json:"result_a"`
 	B     string `json:"result_b"`
 	Idx   int    `json:"corpus_index"`
+	Kind  string `json:"-"` // order | fresh
 }
 
 func refCorpus(e *Env, corpusPath, outPath string, reverse bool) ([][2]string, error) {
